@@ -10,7 +10,8 @@ From Miller Require Import Base.Bytes C19.Model C19.Proofs.
 Open Scope list_scope.
 
 (* crash at ANY point, any number of files, any outcome per file (success, DSL/input error mid-stream, refusal,
-   unwritable directory, close/rename/chmod failure): every named file is whole -- original or complete new bytes *)
+   unwritable directory, failure of the recompressor's Close() while it flushes its tail, close/rename/chmod failure):
+   every named file is whole -- original or complete new bytes *)
 Theorem C19_atomic_at_every_prefix :
   forall plan st k, wf plan st -> forall e, In e plan ->
   ok_cells (st (e_file e)) (e_mode e) (e_out e) (crash_state plan k st (e_file e), crash_state plan k st (e_tmp e)).
@@ -75,13 +76,13 @@ Theorem C19_rename_chmod_window :
 Proof. exact rename_chmod_window. Qed.
 Print Assumptions C19_rename_chmod_window.
 
-(* hypotheses are satisfiable: two files, the second fails mid-stream *)
+(* hypotheses are satisfiable: two files, the second fails while its recompressor is being closed *)
 Example C19_nonvacuous :
   let st : fsys := set (B "a") (Some (B "old-a", 420%N)) (set (B "b") (Some (B "old-b", 384%N)) (fun _ => None)) in
-  let plan := [(B "a", B "t1", 420%N, Succeeds [B "new"; B "-a"]); (B "b", B "t2", 384%N, StreamFails [B "par"])] in
+  let plan := [(B "a", B "t1", 420%N, Succeeds [B "new"; B "-a"]); (B "b", B "t2", 384%N, WrapCloseFails [B "par"])] in
   nodup_paths (files_of plan ++ tmps_of plan) = true /\
   exec (all_ops plan) st (B "a") = Some (B "new-a", 420%N) /\
   exec (all_ops plan) st (B "b") = Some (B "old-b", 384%N) /\
   crash_state plan 5 st (B "t1") = Some (B "new-a", 384%N) /\
-  crash_state plan 12 st (B "t2") = Some (B "par", 384%N).
+  crash_state plan 13 st (B "t2") = Some (B "par", 384%N).
 Proof. vm_compute. repeat split; reflexivity. Qed.
